@@ -347,6 +347,13 @@ def judge (j : Json) : Except String Verdict := do
                coverTags s a ++ (if matchesUnfixed && !agreeOut then ["impl:as-unrepaired"] else []) ++
                (match outs with
                 | o :: _ =>
+                  if o.err == "" && o.spec.rootfsPropagation != s.rootfsPropagation
+                  then [s!"mnt:rootfs-raised:{String.ofList s.rootfsPropagation}->{String.ofList o.spec.rootfsPropagation}"] else []
+                | [] => []) ++
+               (if expErr == "" && a.mounts.any (fun m => !isMarked m.destination && m.options.any isPropagationOpt)
+                then ["mnt:propagation-accepted"] else []) ++
+               (match outs with
+                | o :: _ =>
                   let ms := o.spec.mounts
                   let unclean := fun (m : Oci.Mount) => Mounts.cleanPath m.destination != m.destination
                   (if !a.mounts.isEmpty && ms.any unclean then ["mnt:unclean-destination-in-result"] else []) ++
